@@ -197,6 +197,7 @@ class SyncInterpreter(BaseInterpreter[TContext, TEvent]):
         #    concurrently with the initial entry below.
         if not self._drain_lock.acquire(blocking=False):
             return self  # another thread is already starting this interpreter
+        self._drain_thread = threading.get_ident()
         logger.info("🏁 Starting sync interpreter '%s'...", self.id)
         self.status = "running"
 
@@ -282,6 +283,19 @@ class SyncInterpreter(BaseInterpreter[TContext, TEvent]):
         #    terminates: the child's own `stop()` re-enters this one, which
         #    now hits the idempotency guard instead of recursing forever.
         self.status = "stopped"
+
+        # 0️⃣.5 If ANOTHER thread (a timer, a delayed send, an actor) is in
+        #      the middle of a macrostep, wait for it: the drain loop stops
+        #      consuming as soon as it sees the new status, but the step in
+        #      flight went on running actions and transitions after `stop()`
+        #      had already returned to its caller. Draining never waits for
+        #      a lock, so this cannot deadlock.
+        if self._drain_thread != threading.get_ident():
+            with self._drain_lock:
+                pass
+        #      Only then is everything cancelled, so nothing that step armed
+        #      before it noticed the new status is left behind.
+
         for actor_id, actor in list(self._actors.items()):
             try:
                 actor.stop()
